@@ -395,10 +395,8 @@ impl<'a> ItemUseIter<'a> {
     }
 
     fn base_name(&self) -> String {
-        self.base_name
-            .as_ref()
-            .cloned()
-            .expect("base name not in use statement?")
+        // `use foo;` has no leading path segment: the name itself is the base.
+        self.base_name.as_ref().cloned().unwrap_or_default()
     }
 }
 
